@@ -168,7 +168,7 @@ def do_call(client, callid, a, b):
             return client.set_timing_parameters(rec), sd_atp
         return client.access_timing_parameter(a[0], ob(a, 1, b, 0)), sd_atp
     if callid == 11:
-        ct = CommunicationType(a[2], bool(a[3]), bool(a[4])) if a[1] == 0 else a[2]
+        ct = CommunicationType(a[2], bool(a[3]), bool(a[4])) if a[1] == 0 else (bytes(b[0]) if a[1] == 2 else a[2])
         return client.communication_control(a[0], ct, oi(a, 5)), sd_cc
     if callid == 13:
         return client.transfer_data(a[0], ob(a, 1, b, 0)), sd_td
@@ -221,6 +221,13 @@ def do_call(client, callid, a, b):
             masks = bool(a[5])
         else:
             masks = {'m%d' % a[6 + 2 * i]: bool(a[7 + 2 * i]) for i in range(a[5])}
+            if getattr(client, '_verif_reuse_objects', False) or getattr(client, '_verif_wrappers', False):
+                # the application builds its IOMasks (and IOValues) objects once and hands the same objects to every call
+                cache = client.__dict__.setdefault('_verif_iomasks', {})
+                key = tuple(sorted(masks.items()))
+                if key not in cache:
+                    cache[key] = IOMasks(**masks)
+                masks = cache[key]
         return client.io_control(a[0], control_param=oi(a, 1), values=values, masks=masks), sd_io
     if callid == 27:
         dfi = DataFormatIdentifier(a[2], a[3]) if a[1] == 1 else None
